@@ -28,9 +28,9 @@ def run_gp(case):
         except Exception as ex:  # noqa: BLE001
             events.append({"e": "raise", "fn": fn, "what": type(ex).__name__})
 
-    if case["symmetric"]:
-        guard("articulation", lambda: {"e": "ret", "fn": "articulation", "nodes": sorted(ids[x] for x in articulation_points(iter(nodes), nb).solution)})
-        guard("bridges", lambda: {"e": "ret", "fn": "bridges", "edges": [[ids[a], ids[b]] for a, b in bridges(iter(nodes), nb).solution]})
+    # asymmetric neighbour lists are part of C15's domain: the graph is undirected, an edge exists when either end lists the other
+    guard("articulation", lambda: {"e": "ret", "fn": "articulation", "nodes": sorted(ids[x] for x in articulation_points(iter(nodes), nb).solution)})
+    guard("bridges", lambda: {"e": "ret", "fn": "bridges", "edges": [[ids[a], ids[b]] for a, b in bridges(iter(nodes), nb).solution]})
 
     def kd():
         r = kcore_decomposition(iter(nodes), nb)
